@@ -9055,3 +9055,126 @@ func ruleTermNumbers(prop string) ruleFn {
 		}
 	}
 }
+
+// MEMO-KEY (C04, C11, C14): a remembered result is remembered under everything it was computed from.
+func ruleMemoKey(prop string) ruleFn {
+	return func(w *World, r *Report) {
+		r.Rule("MEMO-KEY", "core.Cache remembers results (the text behind a URL; with a compiled-script cache, a parsed program).  Where a function puts a value into a Cache (Cache.Add, or the thunk of Cache.GetWith), the key depends on every parameter of that function (the receiver included, the Context excepted) that the value depends on.  A compiled script depends on the code, on the *names* of its libraries and on the *location*, whose Control resolves those names: keyed by location and code, two actions with the same text and different libraries run one program twice; keyed by names and code, a location of one group runs another group's library", 1)
+		cacheT := w.Named("core", "Cache")
+		ctxT := w.Named("core", "Context")
+		isCtx := func(t types.Type) bool {
+			p, ok := t.(*types.Pointer)
+			if !ok {
+				return false
+			}
+			n, ok := p.Elem().(*types.Named)
+			return ok && n.Obj() == ctxT.Obj()
+		}
+		n := 0
+		for _, fn := range w.Funcs {
+			if !w.IsRulio(fn) || isTestFile(w, fn) || fn.Parent() != nil {
+				continue
+			}
+			if nt := namedOf(recvType(fn)); nt != nil && nt.Obj() == cacheT.Obj() {
+				continue // the cache's own methods
+			}
+			allInstrs(fn, func(in ssa.Instruction) {
+				c := callOf(in)
+				if c == nil || c.StaticCallee() == nil || c.StaticCallee().Signature.Recv() == nil || len(c.Args) < 3 {
+					return
+				}
+				f := c.StaticCallee()
+				if rn := namedOf(f.Signature.Recv().Type()); rn == nil || rn.Obj() != cacheT.Obj() {
+					return
+				}
+				if f.Name() != "Add" && f.Name() != "GetWith" {
+					return
+				}
+				n++
+				key := "fn=" + fname(fn) + " " + f.Name()
+				keyV, valV := c.Args[1], c.Args[2]
+				var vals []ssa.Value
+				if mc, ok := resolveSpill(valV).(*ssa.MakeClosure); ok {
+					vals = append(vals, mc.Bindings...)
+				} else {
+					vals = append(vals, valV)
+				}
+				var missing []string
+				for _, p := range fn.Params {
+					if isCtx(p.Type()) {
+						continue
+					}
+					isP := func(v ssa.Value) bool { return v == ssa.Value(p) }
+					used := false
+					for _, v := range vals {
+						if dependsOn(v, isP) {
+							used = true
+						}
+					}
+					if used && !dependsOn(keyV, isP) {
+						missing = append(missing, p.Name())
+					}
+				}
+				if len(missing) > 0 {
+					r.violation("MEMO-KEY", key, w.PosOf(in), "the remembered value depends on "+strings.Join(missing, ", ")+", the key does not: a call that differs only there gets the other call's result")
+				} else {
+					r.ok("MEMO-KEY", key, w.PosOf(in), "the key covers what the value is computed from")
+				}
+			})
+		}
+		if n == 0 {
+			r.ok("MEMO-KEY", "type=core.Cache", "", "nothing is put into a core.Cache outside the cache itself")
+		}
+	}
+}
+
+func recvType(fn *ssa.Function) types.Type {
+	if fn.Signature.Recv() == nil {
+		return nil
+	}
+	return fn.Signature.Recv().Type()
+}
+
+// REQ-DECODE-STRICT (C18): a malformed request is refused, and a request starts from nothing.
+func ruleReqDecodeStrict(w *World, r *Report) {
+	r.Rule("REQ-DECODE-STRICT", "service.GetHTTPRequest turns a request into the parameter map of an operation.  (1) The query string is parsed with url.ParseQuery, whose error refuses the request; (*url.URL).Query() parses the same string and silently drops every pair it cannot decode — `id=%zz`, `inherited=true;x` — so the request succeeds as a *different* operation (a fact stored under a generated id, a list without the inherited rules).  No function of the service package calls URL.Query.  (2) The map is made for the request: nothing that GetHTTPRequest returns comes out of a sync.Pool (or another value that outlives the request) — a map that is put back on an error path without being cleared hands its `take=true` or its `id` to the next request that draws it", 2)
+	n := 0
+	var lenient ssa.Instruction
+	var pooled ssa.Instruction
+	for _, fn := range w.Funcs {
+		if w.RelPkg(fn) != "service" || isTestFile(w, fn) {
+			continue
+		}
+		allInstrs(fn, func(in ssa.Instruction) {
+			c := callOf(in)
+			if c == nil || c.StaticCallee() == nil || c.StaticCallee().Pkg == nil {
+				return
+			}
+			f := c.StaticCallee()
+			switch {
+			case f.Pkg.Pkg.Path() == "net/url" && f.Name() == "ParseQuery":
+				n++
+			case f.Pkg.Pkg.Path() == "net/url" && f.Name() == "Query" && f.Signature.Recv() != nil:
+				if lenient == nil {
+					lenient = in
+				}
+			case f.Pkg.Pkg.Path() == "sync" && f.Name() == "Get" && f.Signature.Recv() != nil:
+				if pooled == nil {
+					pooled = in
+				}
+			}
+		})
+	}
+	if lenient != nil {
+		r.violation("REQ-DECODE-STRICT", "pkg=service query", w.PosOf(lenient), "the query string is read with URL.Query(), which drops what it cannot decode instead of refusing the request")
+	} else if n == 0 {
+		r.exempt("REQ-DECODE-STRICT", "pkg=service query", "", "the service package does not parse a query string: shape not recognised, not decided")
+	} else {
+		r.ok("REQ-DECODE-STRICT", "pkg=service query", "", "query strings are parsed with url.ParseQuery ("+itoa(n)+" call(s)), whose error refuses the request")
+	}
+	if pooled != nil {
+		r.violation("REQ-DECODE-STRICT", "pkg=service fresh", w.PosOf(pooled), "request state is drawn from a sync.Pool: what a refused request left in it is the next request's parameters")
+	} else {
+		r.ok("REQ-DECODE-STRICT", "pkg=service fresh", "", "no request state is pooled")
+	}
+}
